@@ -47,7 +47,7 @@ def setup():
     return 0
 
 
-from . import checks2, checks3, checks4, checks5
+from . import checks2, checks3, checks4, checks5, checks6
 
 EXTRA = {
     'C03': lambda tier, seed: checks2.run_ledger_check('C03', tier, seed),
@@ -57,9 +57,10 @@ EXTRA = {
     'C15': checks4.run_c15,
     'C16': checks4.run_c16,
     'C20': checks5.run_c20,
+    'C14': checks6.run_c14,
 }
-REPLAY = {'c13': checks3.replay_c13, 'memcheck': checks.replay_memcheck, 'c15': checks4.replay_c15, 'c20': checks5.replay_c20, 'c20poly': checks5.replay_c20}
-SETUP = [checks2.setup, checks3.setup, checks4.setup, checks5.setup]
+REPLAY = {'c13': checks3.replay_c13, 'memcheck': checks.replay_memcheck, 'c15': checks4.replay_c15, 'c20': checks5.replay_c20, 'c20poly': checks5.replay_c20, 'puml': checks6.replay_c14, 'c14v': checks6.replay_c14, 'c14p': checks6.replay_c14}
+SETUP = [checks2.setup, checks3.setup, checks4.setup, checks5.setup, checks6.setup]
 
 
 def claimed():
